@@ -102,6 +102,32 @@ H1Regs == {
      Entry(2, <<"m", "E">>, <<>>, [k |-> "var", variants |-> <<[name |-> "V", index |-> 0, fields |-> <<F("", 0, "T")>>, docs |-> <<>>]>>], <<>>) >> }
 H1(z) == {[fam |-> "H1", prog |-> NoProg, roots |-> <<>>, rawreg |-> r] : r \in H1Regs}
 
+(* G13(n): every type graph over n nodes (plus one primitive): each node is a named struct with two fields, an unnamed   *)
+(* tuple of two elements, a one-element tuple, or a sequence, pointing anywhere - under the well-formedness rule R8 (every *)
+(* cycle passes through a named type and through a sequence).  This is the state space in which "the cache / recursion    *)
+(* policy is correct for every visiting order" is a statement about all small graphs.                                     *)
+PrimIdOf(n_) == n_
+TargetsOf(n_) == 0..n_
+NodeDefs(n_) == {[k |-> "comp", named |-> TRUE, a |-> x, b |-> y] : x \in TargetsOf(n_), y \in TargetsOf(n_)}
+               \cup {[k |-> "tup", named |-> FALSE, a |-> x, b |-> y] : x \in TargetsOf(n_), y \in TargetsOf(n_)}
+               \cup {[k |-> "tup1", named |-> FALSE, a |-> x, b |-> x] : x \in TargetsOf(n_)}
+               \cup {[k |-> "seq", named |-> FALSE, a |-> x, b |-> x] : x \in TargetsOf(n_)}
+MkEntry(i, d) ==
+  CASE d.k = "comp" -> Entry(i, <<"g", "N" \o ToString(i)>>, <<>>, [k |-> "comp", fields |-> <<F("a", d.a, ""), F("b", d.b, "")>>], <<>>)
+    [] d.k = "tup" -> Entry(i, <<>>, <<>>, [k |-> "tup", elems |-> <<d.a, d.b>>], <<>>)
+    [] d.k = "tup1" -> Entry(i, <<>>, <<>>, [k |-> "tup", elems |-> <<d.a>>], <<>>)
+    [] d.k = "seq" -> Entry(i, <<>>, <<>>, [k |-> "seq", of |-> d.a], <<>>)
+MkReg(n_, f) == [i \in 1..n_ |-> MkEntry(i - 1, f[i])] \o <<Entry(PrimIdOf(n_), <<>>, <<>>, [k |-> "prim", p |-> "u8"], <<>>)>>
+\* R8: removing the named types (resp. the sequences) leaves an acyclic graph
+RECURSIVE ReachAvoid(_, _, _, _)
+ReachAvoid(reg, frontier, seen, avoid) ==
+  IF frontier = {} THEN seen
+  ELSE LET nxt == ((UNION {DefRefs(Ty(reg, i).def) : i \in frontier}) \ avoid) \ seen IN ReachAvoid(reg, nxt, seen \cup nxt, avoid)
+AcyclicAvoiding(reg, avoid) == \A i \in Ids(reg) \ avoid : i \notin ReachAvoid(reg, DefRefs(Ty(reg, i).def) \ avoid, DefRefs(Ty(reg, i).def) \ avoid, avoid)
+R8(reg) == /\ AcyclicAvoiding(reg, {i \in Ids(reg) : Len(Ty(reg, i).path) > 0})
+           /\ AcyclicAvoiding(reg, {i \in Ids(reg) : Ty(reg, i).def.k = "seq"})
+G13(n_) == {[fam |-> "G13", prog |-> NoProg, roots |-> <<>>, rawreg |-> MkReg(n_, f)] : f \in {g \in [1..n_ -> NodeDefs(n_)] : R8(MkReg(n_, g))}}
+
 (* G7: a substitutable generic Sub<A,B> (and the prelude BTreeMap) in every position: field, nested in *)
 (* Vec/Option/tuple/array, argument of another generic, nested in itself, in variants, under a parent   *)
 (* parameter, boxed; one position per program plus a combined one.                                       *)
@@ -220,7 +246,7 @@ G2Members == {P_Adt("FooG", <<u8>>), P_Adt("FooG", <<u16>>), P_Adt("FooG", <<boo
 \* the (large) program is referenced by name so that the case records stay small: see ProgOf
 G2Case(roots) == [fam |-> "G2p", pid |-> "G2", prog |-> NoProg, roots |-> roots]
 ProgOf(c) == IF c.fam = "G2p" THEN G2Prog ELSE c.prog
-RegOf(c) == IF c.fam = "H1" THEN c.rawreg ELSE Register(ProgOf(c), c.roots).reg
+RegOf(c) == IF c.fam \in {"H1", "G13"} THEN c.rawreg ELSE Register(ProgOf(c), c.roots).reg
 G2MembersSmall == {P_Adt("FooG", <<u8>>), P_Adt("FooG", <<u16>>), A0("FooC8"), A0("FooC16"), P_Adt("FooA", <<A0("C1")>>), P_Adt("FooA", <<A0("C2")>>),
                    P_Adt("FooV", <<u32>>), P_Adt("FooV", <<u8>>), A0("FooE"), A0("FooT")}
 TriplesSmall(z) == {q \in G2MembersSmall \X G2MembersSmall \X G2MembersSmall : q[1] # q[2] /\ q[1] # q[3] /\ q[2] # q[3]}
